@@ -40,6 +40,18 @@ impl Aut {
                 t: *t as i16,
                 j: *j as i16,
             },
+            ArrSpec::CurveCollected { dmin } => {
+                // FromIterator documents "ensure the min-distance function is monotonic": the
+                // process is the one of the monotone closure of the given vector
+                let mut d: Vec<i16> = dmin.iter().map(|x| *x as i16).collect();
+                for i in 1..d.len() {
+                    d[i] = d[i].max(d[i - 1]);
+                }
+                if *d.last()? == 0 {
+                    return None;
+                }
+                Aut::Dmin { d }
+            }
             ArrSpec::Curve { dmin } | ArrSpec::ExtCurve { dmin } => {
                 if *dmin.last()? == 0 {
                     return None;
